@@ -3,6 +3,7 @@ package sim
 import (
 	"fmt"
 	"strings"
+	"time"
 )
 
 // C05 — melt inputs follow the Lightning outcome. The script space of the
@@ -49,6 +50,20 @@ func coreC05(tier string) []RunSpec {
 			}
 		}
 		rec(nil)
+	}
+	// the payment resolves only after the melt quote has expired (clock jump while it is in flight)
+	for pay := 0; pay < 4; pay++ {
+		for _, st := range []int{0, 2, 4} { // no status answer / error / pending first
+			for final := 0; final < 2; final++ {
+				for ch := 0; ch < 2; ch++ {
+					p := map[string]int{"late": 1, "lated": (pay + st + final) % 3, "pay": pay, "final": final, "ch": ch, "mpp": 0, "n": 0}
+					if st > 0 {
+						p["n"], p["s0"] = 1, st
+					}
+					out = append(out, RunSpec{Profile: "core:late-resolution", Params: p})
+				}
+			}
+		}
 	}
 	// a swap of the melt's inputs racing the melt request, for each pay answer
 	for pay := 0; pay < 4; pay++ {
@@ -172,6 +187,7 @@ func runC05(rc *RunCtx) {
 		seq = amb
 		n = len(seq)
 	}
+	late := rc.P("late", 0) == 1 || (random && T.Chance("late", 1, 4))
 	script := c05Pay[pay] + ":" + strings.Join(seq, ",")
 	if dbf {
 		script += fmt.Sprintf(" db_error@%d/%d", fpos, fwhere)
@@ -366,7 +382,14 @@ func runC05(rc *RunCtx) {
 		rc.S.Probe("c05_trans_" + seq[i] + "_" + c5name(cur))
 	}
 	// script exhausted: the backend now answers truthfully. If still locked, the payment reaches
-	// its final outcome and the *next* poll through either channel must adopt it.
+	// its final outcome and the *next* poll through either channel must adopt it - however long
+	// the payment took (a quote's expiry limits when a melt may start, not when it may finish).
+	if cur == c5Locked && late {
+		d := []time.Duration{11 * time.Minute, 2 * time.Hour, 26 * time.Hour}[rc.P("lated", T.Choose("late.d", 3))%3]
+		rc.Op("clock+" + d.String())
+		rc.S.Sleep(d)
+		rc.S.Probe("c05_resolved_after_quote_expiry")
+	}
 	if cur == c5Locked {
 		key := "A|" + inv.Hash
 		p := W.LN.Payments[key]
